@@ -123,6 +123,13 @@ pub(crate) fn layout_decimal(digits: &str, point: i32) -> String {
     }
 }
 
+/// Arrays are dense: every element up to `length` is stored.  Lengths that a script can
+/// request but that cannot be backed by memory are refused with a RangeError.
+pub const MAX_ARRAY_LENGTH: usize = 1 << 27;
+
+/// Longest string a built-in may produce (as in other engines, about 2^29 code units).
+pub const MAX_STRING_LENGTH: usize = 1 << 29;
+
 /// ECMAScript ToInt32: truncate toward zero, then wrap modulo 2^32 into
 /// [-2^31, 2^31).  NaN and the infinities give 0.  (A plain `as i32` cast
 /// saturates instead of wrapping.)
@@ -1778,8 +1785,13 @@ impl JsObject {
         if let ExoticObject::Array { ref mut elements } = self.exotic {
             if let PropertyKey::Index(idx) = key {
                 let idx = idx as usize;
-                // Extend array with undefined if needed (dense array)
+                // Extend array with undefined if needed (dense array).  Growth beyond what
+                // can be stored is refused by the callers that can throw (see
+                // `BytecodeVM::set_property_value`); here it is ignored rather than aborting.
                 if idx >= elements.len() {
+                    if idx >= MAX_ARRAY_LENGTH || elements.try_reserve(idx + 1 - elements.len()).is_err() {
+                        return;
+                    }
                     elements.resize(idx + 1, JsValue::Undefined);
                 }
                 // Safe: we just resized to ensure idx is in bounds
@@ -1794,6 +1806,11 @@ impl JsObject {
             {
                 if let JsValue::Number(n) = value {
                     let new_len = n as usize;
+                    if new_len > MAX_ARRAY_LENGTH
+                        || (new_len > elements.len() && elements.try_reserve(new_len - elements.len()).is_err())
+                    {
+                        return;
+                    }
                     elements.resize(new_len, JsValue::Undefined);
                 }
                 return;
